@@ -9,26 +9,26 @@ package signer
 //@ iface Service.SignGeneric(self, ctx, credentials, accountName, pubKey, data)
 //@ requires [domaincap] data != nil ==> data.Domain == nil || cap(data.Domain) >= 4
 //@ requires [unlocked] !prelocked && (forall k [48]byte :: !held[k])
-//@ modifies tokroot, db, checkedset, held, prelocked
+//@ modifies tokroot, db, checkedset, deniedset, held, prelocked
 //@ ensures [released] !prelocked && (forall k [48]byte :: !held[k])
 //@ ensures [failclosed] (result0 == core.ResultSucceeded) <==> (result1 != nil)
 //@ iface Service.SignBeaconAttestation(self, ctx, credentials, accountName, pubKey, data)
 //@ requires [domaincap] data != nil ==> data.Domain == nil || cap(data.Domain) >= 4
 //@ requires [unlocked] !prelocked && (forall k [48]byte :: !held[k])
-//@ modifies tokroot, db, checkedset, held, prelocked
+//@ modifies tokroot, db, checkedset, deniedset, held, prelocked
 //@ ensures [released] !prelocked && (forall k [48]byte :: !held[k])
 //@ ensures [failclosed] (result0 == core.ResultSucceeded) <==> (result1 != nil)
 //@ iface Service.SignBeaconProposal(self, ctx, credentials, accountName, pubKey, data)
 //@ requires [domaincap] data != nil ==> data.Domain == nil || cap(data.Domain) >= 4
 //@ requires [unlocked] !prelocked && (forall k [48]byte :: !held[k])
-//@ modifies tokroot, db, checkedset, held, prelocked
+//@ modifies tokroot, db, checkedset, deniedset, held, prelocked
 //@ ensures [released] !prelocked && (forall k [48]byte :: !held[k])
 //@ ensures [failclosed] (result0 == core.ResultSucceeded) <==> (result1 != nil)
 //@ iface Service.Multisign(self, ctx, credentials, accountNames, pubKeys, data)
 //@ requires [lens] len(accountNames) <= len(data) && len(pubKeys) <= len(data)
 //@ requires [domaincap] forall j int :: 0 <= j && j < len(data) && data[j] != nil ==> data[j].Domain == nil || cap(data[j].Domain) >= 4
 //@ requires [unlocked] !prelocked && (forall k [48]byte :: !held[k])
-//@ modifies tokroot, db, checkedset, held, prelocked
+//@ modifies tokroot, db, checkedset, deniedset, held, prelocked
 //@ ensures [released] !prelocked && (forall k [48]byte :: !held[k])
 //@ ensures [len] len(result0) >= 1 && (len(result1) == 0 || len(result1) == len(result0)) && (len(data) > 0 ==> len(result0) == len(data))
 //@ ensures [failclosed] forall i int :: 0 <= i && i < len(result0) ==> ((result0[i] == core.ResultSucceeded) <==> (i < len(result1) && result1[i] != nil))
@@ -36,7 +36,7 @@ package signer
 //@ requires [lens] len(accountNames) <= len(data) && len(pubKeys) <= len(data)
 //@ requires [domaincap] forall j int :: 0 <= j && j < len(data) && data[j] != nil ==> data[j].Domain == nil || cap(data[j].Domain) >= 4
 //@ requires [unlocked] !prelocked && (forall k [48]byte :: !held[k])
-//@ modifies tokroot, db, checkedset, held, prelocked
+//@ modifies tokroot, db, checkedset, deniedset, held, prelocked
 //@ ensures [released] !prelocked && (forall k [48]byte :: !held[k])
 //@ ensures [len] len(result0) >= 1 && (len(result1) == 0 || len(result1) == len(result0)) && (len(data) > 0 ==> len(result0) == len(data))
 //@ ensures [failclosed] forall i int :: 0 <= i && i < len(result0) ==> ((result0[i] == core.ResultSucceeded) <==> (i < len(result1) && result1[i] != nil))
